@@ -121,6 +121,28 @@ fn judge_curve2(case: &Case, l: &mut Local) {
             }
         }
     }
+    // orientation-normalising constructor: building from moved points equals moving the built curve
+    if pts.len() >= 3 {
+        l.eval();
+        let moved: Vec<Point2> = pts.iter().map(|p| iso * p).collect();
+        match (guarded(|| Curve2::from_points_ccw(&pts, 1e-9, case.force_closed)), guarded(|| Curve2::from_points_ccw(&moved, 1e-9, case.force_closed))) {
+            (Ok(Ok(a)), Ok(Ok(b))) => {
+                let hull_area: f64 = {
+                    let v = a.points();
+                    (0..v.len()).map(|i| v[i].x * v[(i + 1) % v.len()].y - v[(i + 1) % v.len()].x * v[i].y).sum()
+                };
+                if hull_area.abs() > 1e-9 {
+                    l.bucket("orientation-normalised curve x iso");
+                    let same = a.count() == b.count() && a.points().iter().zip(b.points().iter()).all(|(p, q)| d2(&(iso * p), q) <= tol);
+                    l.check("curve2: counter-clockwise construction commutes with the motion", "", same, mk, || format!("{:?} vs {:?}", a.points().iter().map(|p| iso * p).collect::<Vec<_>>(), b.points()));
+                }
+            }
+            (Ok(Err(_)), Ok(Err(_))) => {}
+            (a, b) => {
+                l.check("curve2: counter-clockwise construction commutes with the motion", "presence", a.map(|x| x.is_ok()).ok() == b.map(|x| x.is_ok()).ok(), mk, String::new);
+            }
+        }
+    }
     // inverse restores, composition equals sequence
     let back = ct.transformed_by(&iso.inverse());
     l.check("curve2: inverse motion restores the curve", "", back.points().iter().zip(c.points().iter()).all(|(p, q)| d2(p, q) <= tol), mk, String::new);
@@ -223,6 +245,29 @@ fn judge_mesh(case: &Case, l: &mut Local) {
             l.gray("sign of a deviation measured in the plane of the nearest face");
         }
         l.check("mesh: point-mode deviation invariant", if best > 1e-9 { class } else { "on-surface" }, (m0.abs() - m1.abs()).abs() <= tol && (best <= 1e-9 || !normals_agree || in_plane || (m0 - m1).abs() <= tol), mk, || format!("q {:?}: {} vs {}", q, m0, m1));
+        // the optional transform argument: measuring T^-1 q with Some(T) equals measuring q with None
+        for (cap, ang) in [(10.0, 0.3), (1.0, 1.2), (0.25, 0.8)] {
+            l.eval();
+            let direct = mesh.project_with_tol(&q, cap, ang, None);
+            let via = mesh.project_with_tol(&(iso.inverse() * q), cap, ang, Some(&iso));
+            let ok = match (&direct, &via) {
+                (Some(a), Some(b)) => d3(&a.0.point, &b.0.point) <= tol && a.1 == b.1,
+                (None, None) => true,
+                _ => false,
+            };
+            // acceptance decided within rounding of the cap or the angle limit may flip
+            let boundary = (best - cap).abs() <= 1e-9 * (1.0 + iso.translation.vector.norm()) || mins.iter().any(|c| normals[c.0].map(|n| { let a = n.angle(&(q - c.1)); (a - ang).abs() < 1e-7 || (a - (std::f64::consts::PI - ang)).abs() < 1e-7 }).unwrap_or(true));
+            if !ok && (boundary || !unique_point || !normals_agree) {
+                l.gray("projection with transform on an acceptance boundary, a tie, or an edge/vertex with several normals");
+            } else {
+                l.check("mesh: projecting a point given in another frame through the transform argument equals projecting it directly", "", ok, mk, || format!("q {:?} cap {} angle {}: direct {:?} via transform {:?}", q, cap, ang, direct.map(|x| x.0.point), via.map(|x| x.0.point)));
+            }
+            let idx_direct = mesh.indices_in_tol(&[q], cap, ang, None);
+            let idx_via = mesh.indices_in_tol(&[iso.inverse() * q], cap, ang, Some(&iso));
+            if ok {
+                l.check("mesh: indices_in_tol honours the transform argument", "", idx_direct == idx_via, mk, || format!("{:?} vs {:?}", idx_direct, idx_via));
+            }
+        }
         let p0 = mesh.measure_point_deviation(&q, DistMode::ToPlane).value();
         let p1 = mt.measure_point_deviation(&qt, DistMode::ToPlane).value();
         l.check("mesh: plane-mode deviation invariant", class, (p0 - p1).abs() <= tol, mk, || format!("q {:?}: {} in the original frame, {} after moving mesh and point together", q, p0, p1));
@@ -487,7 +532,7 @@ pub fn run(tier: Tier) -> i32 {
     let mut cx = Ctx::new("C03", tier, "exploration");
     cx.rule = "entities (lattice curves 2D/3D, 16 meshes, 120 planes, surface points, segments, point clouds with/without normals, distances) x the full isometry menu (2D: 3 translations x 8 angles; 3D: 3 translations x {identity + 5 axes x 6 angles}) x fixed query grids; metamorphic oracle f(Tx) = f(x), g(Tx) = T g(x); inverse and composition clauses. distinct = distinct entities".into();
     cx.bounds = json!({"iso2_menu": gen::iso2_menu().len(), "iso3_menu": gen::iso3_menu().len(), "curve2_seq_len": tier.pick(3, 4), "meshes": meshes().len()});
-    cx.require(&["curve2 x iso", "curve3 x iso", "mesh x iso", "plane x iso", "surface point 2 x iso", "surface point 3 x iso", "point cloud x iso", "distance x iso", "closest point with one face normal", "closest point on an edge or vertex with several normals"]);
+    cx.require(&["orientation-normalised curve x iso", "curve2 x iso", "curve3 x iso", "mesh x iso", "plane x iso", "surface point 2 x iso", "surface point 3 x iso", "point cloud x iso", "distance x iso", "closest point with one face normal", "closest point on an edge or vertex with several normals"]);
     cx.assume("tolerance 1e-9 * (1 + |translation| + extent); closest points compared only when the brute-force minimiser is unique by a 1e-6 gap; station directions not compared within 1e-9 L of a vertex");
     let cs = cases(tier);
     let l = sweep(&cs, judge);
